@@ -3,9 +3,11 @@ package simnet
 // txbuild.go — turns MsgSpec/TxSpec into real sdk.Msg values and real signed transaction bytes.
 
 import (
+	"encoding/binary"
 	"fmt"
 	"strconv"
 	"strings"
+	"time"
 
 	"cosmossdk.io/math"
 	"github.com/cosmos/cosmos-sdk/client"
@@ -20,6 +22,8 @@ import (
 	"github.com/cosmos/cosmos-sdk/x/feegrant"
 	govtypes "github.com/cosmos/cosmos-sdk/x/gov/types"
 	govv1 "github.com/cosmos/cosmos-sdk/x/gov/types/v1"
+	"github.com/cosmos/cosmos-sdk/x/group"
+	groupkeeper "github.com/cosmos/cosmos-sdk/x/group/keeper"
 	stakingtypes "github.com/cosmos/cosmos-sdk/x/staking/types"
 
 	authtypes "github.com/cosmos/cosmos-sdk/x/auth/types"
@@ -39,7 +43,20 @@ const (
 	AddrBonded       = -5
 	AddrDistr        = -6
 	// -(100+n): a named-only address of n bytes (1..255)
+	// -(2000+k): the account of the k-th x/group policy created on this chain (k = 1, 2, ...); a
+	// 32-byte address derived from the policy sequence, which "signs" through group proposals
 )
+
+// PolicyAddr is the account address x/group gives the k-th group policy.
+func PolicyAddr(k uint64) sdk.AccAddress {
+	dk := make([]byte, 8)
+	binary.BigEndian.PutUint64(dk, k)
+	ac, err := authtypes.NewModuleCredential(group.ModuleName, []byte{groupkeeper.GroupPolicyTablePrefix}, dk)
+	if err != nil {
+		panic(err)
+	}
+	return sdk.AccAddress(ac.Address())
+}
 
 func AddrOf(actors []*Actor, i int) sdk.AccAddress {
 	switch {
@@ -57,6 +74,8 @@ func AddrOf(actors []*Actor, i int) sdk.AccAddress {
 		return ModuleAddr(stakingtypes.BondedPoolName)
 	case i == AddrDistr:
 		return ModuleAddr(distrtypes.ModuleName)
+	case i <= -2001 && i >= -2999:
+		return PolicyAddr(uint64(-i - 2000))
 	case i <= -101 && i >= -355:
 		n := -i - 100
 		b := make([]byte, n)
@@ -169,6 +188,28 @@ func BuildMsg(actors []*Actor, m *MsgSpec) (sdk.Msg, error) {
 		}
 		e := authz.NewMsgExec(AddrOf(actors, m.A), inner)
 		return &e, nil
+	case "grp.create":
+		// a one-member group whose policy passes with that member's vote
+		msg := &group.MsgCreateGroupWithPolicy{Admin: A, Members: []group.MemberRequest{{Address: A, Weight: "1"}}}
+		if err := msg.SetDecisionPolicy(group.NewThresholdDecisionPolicy("1", time.Hour, 0)); err != nil {
+			return nil, err
+		}
+		return msg, nil
+	case "grp.submit":
+		// A proposes to policy Id the messages Inner (which name the policy account); N=1: try to execute at once
+		inner := make([]sdk.Msg, 0, len(m.Inner))
+		for i := range m.Inner {
+			x, err := BuildMsg(actors, &m.Inner[i])
+			if err != nil {
+				return nil, err
+			}
+			inner = append(inner, x)
+		}
+		exec := group.Exec_EXEC_UNSPECIFIED
+		if m.N == 1 {
+			exec = group.Exec_EXEC_TRY
+		}
+		return group.NewMsgSubmitProposal(PolicyAddr(m.Id).String(), []string{A}, inner, "", exec, "p", "p")
 	case "feegrant.grant":
 		return feegrant.NewMsgGrantAllowance(&feegrant.BasicAllowance{}, AddrOf(actors, m.A), AddrOf(actors, m.B))
 	case "gov.submit":
